@@ -131,6 +131,12 @@ def _pool():
                                           rtf_page=rtf.RTFPage(nrow=5), rtf_body=rtf.RTFBody(page_by=["g"], text_color="red")),
         "pbB": lambda sh: rtf.RTFDocument(df=__import__("polars").DataFrame({"g": ["G0v7", "G0v8", "G0v8", "G0v9"], "a": ["D0.1", "D1.1", "D2.1", "D3.1"]}),
                                           rtf_page=rtf.RTFPage(nrow=4), rtf_body=rtf.RTFBody(page_by=["g"])),
+        # two paginated group_by documents on a column of the same name: gpA's second page starts in the middle of a group,
+        # gpB has a group that starts on that very row (used by the thread scheduler only)
+        "gpA": lambda sh: rtf.RTFDocument(df=__import__("polars").DataFrame({"k": ["K0v0", "K0v0", "K0v0", "K0v1", "K0v1"], "a": [f"D{r}.1" for r in range(5)]}),
+                                          rtf_page=rtf.RTFPage(nrow=2), rtf_body=rtf.RTFBody(group_by=["k"])),
+        "gpB": lambda sh: rtf.RTFDocument(df=__import__("polars").DataFrame({"k": ["K0v5", "K0v5", "K0v6", "K0v6", "K0v6"], "a": [f"D{r}.1" for r in range(5)]}),
+                                          rtf_page=rtf.RTFPage(nrow=2), rtf_body=rtf.RTFBody(group_by=["k"], text_color="green")),
         "figure": lambda sh: rtf.RTFDocument(rtf_figure=rtf.RTFFigure(figures=[_png_path()], fig_width=2, fig_height=1.5),
                                              rtf_title=rtf.RTFTitle(text="T0", text_color="orange")),
         # shA / shB hold the same component objects AND the same DataFrame; same column count
